@@ -476,6 +476,33 @@ Proof.
   - simpl. unfold forward_subst. simpl. split; [lra | exact I].
 Qed.
 
+(* ---- sample_posterior_joint layout (every carrier N): with the draws concatenated as the implementation
+   does (flat column j * num_samples + s of the noise matrix belongs to fantasy column j, sample s), sample s
+   of fantasy column j is  L z_{j,s} + posterior mean of COLUMN j : fantasy columns are independent target
+   vectors sharing one covariance factor L *)
+Theorem c08_joint_samples_layout :
+  forall (N : Num) (lfact : mat N) (mean_cols : list (vec N)) (zc : list (list (vec N))) (S : nat),
+    Forall (fun r => length r = S) zc -> length zc = length mean_cols ->
+    joint_samples N lfact mean_cols zc S =
+    map2 (fun mj zrow => map (fun z => vadd N (mv N lfact z) mj) zrow) mean_cols zc.
+Proof. exact joint_samples_layout. Qed.
+Print Assumptions c08_joint_samples_layout.
+
+Theorem c08_joint_samples_flat_index :
+  forall (A : Type) (size : nat) (rows : list (list A)) (d : A) j s,
+    Forall (fun r => length r = size) rows -> (j < length rows)%nat -> (s < size)%nat ->
+    nth (j * size + s) (concat rows) d = nth s (nth j rows []) d.
+Proof. exact @concat_nth_flat. Qed.
+Print Assumptions c08_joint_samples_flat_index.
+
+Example c08_joint_samples_example :
+  joint_samples NumR [[1; 0]; [0; 1]] [[10; 20]; [30; 40]] [[[1; 2]; [3; 4]]; [[5; 6]; [7; 8]]] 2
+  = [[[11; 22]; [13; 24]]; [[35; 46]; [37; 48]]].
+Proof.
+  rewrite c08_joint_samples_layout by (repeat constructor).
+  unfold mv, vadd. simpl. repeat f_equal; lra.
+Qed.
+
 (* non-vacuity of the warping theorems: two blocks on the non-contiguous ranges (0,1) and (2,3) are
    pairwise disjoint, and coordinate 2 of a 3-vector is transformed by the second block only *)
 Example c08_warp_example :
